@@ -80,7 +80,10 @@ BudgetOK(s0, bud, inBlock) ==
     LET amt == bud[1] + bud[2] + bud[3] IN
       amt <= ProposalCap(s0) /\ amt <= ProposalRoom(s0, inBlock)
 
-\* CRCProposalWithdraw (payload v1): status, owner, amount = available > 0
+\* CRCProposalWithdraw (both payload versions): status, owner, amount = available > 0.
+\* Payload version 0 (below CRCProposalWithdrawPayloadV1Height) spends outputs of the
+\* CR expenses address itself; version 1 records an order that a later
+\* CRCProposalRealWithdraw pays (see Withdraw0 / Withdraw).
 WithdrawOK(s0, p, owner, amt) ==
     LET q == s0.prop[p] IN
       /\ q.st \in {"VoterAgreed", "Finished", "Aborted", "Terminated"}
@@ -88,14 +91,16 @@ WithdrawOK(s0, p, owner, amt) ==
       /\ Avail(q) > 0
       /\ amt = Avail(q)
 
-\* CRCProposalTracking
-TrackingOK(s0, p, owner, tt, stage) ==
+\* CRCProposalTracking.  legacy: the block is below CRCProposalWithdrawPayloadV1Height,
+\* where a Rejected tracking is checked like a Progress one (normal payment stages only).
+TrackingOK(s0, p, owner, tt, stage, legacy) ==
     LET q == s0.prop[p] IN
       /\ q.st = "VoterAgreed" /\ q.kind = "normal"
       /\ q.tcount < MaxTracking
       /\ q.owner = owner
       /\ CASE tt = "Progress"   -> stage = 2 /\ stage \notin q.wable
-           [] tt = "Rejected"   -> stage \in Stages /\ stage \notin q.wable
+           [] tt = "Rejected"   -> IF legacy THEN stage = 2 /\ stage \notin q.wable
+                                   ELSE stage \in Stages /\ stage \notin q.wable
            [] tt = "Finalized"  -> stage = 3
            [] tt = "Terminated" -> stage = 0
            [] tt = "Common"     -> stage = 0
@@ -158,6 +163,18 @@ Withdraw(s0, s, p, amt) ==
                  !.pend = @ \cup {[n |-> s.wid + 1, p |-> p, amt |-> amt]},
                  !.wid = @ + 1,
                  \* ledger view (history variables of the property)
+                 !.paid[p] = @ + amt,
+                 !.cover[p] = [i \in Stages |-> IF i \in paying THEN @[i] + 1 ELSE @[i]]]
+
+\* ProposalManager.proposalWithdraw (payload v0): the same stages are marked
+\* withdrawn, nothing is ordered: the transaction itself spends outputs of the
+\* CR expenses address (inputs - change = amt leaves the address).
+Withdraw0(s0, s, p, amt) ==
+    LET paying == s0.prop[p].wable \ s0.prop[p].wdrawn
+        q == s.prop[p]
+    IN [s EXCEPT !.prop[p].wdrawn = @ \cup paying,
+                 !.prop[p].bst = [i \in Stages |-> IF q.bst[i] = "Withdrawable" THEN "Withdrawn" ELSE q.bst[i]],
+                 !.cbal = @ - amt,
                  !.paid[p] = @ + amt,
                  !.cover[p] = [i \in Stages |-> IF i \in paying THEN @[i] + 1 ELSE @[i]]]
 
@@ -254,6 +271,13 @@ WithdrawnWasWithdrawable(s) ==
     \A p \in Props : /\ s.prop[p].wdrawn \subseteq s.prop[p].wable
                      /\ \A i \in Stages : s.prop[p].bst[i] = "Withdrawn" => i \in s.prop[p].wdrawn
                      /\ \A i \in Stages : s.cover[p][i] > 0 => i \in s.prop[p].wable
+
+\* the payable set (pending withdraw orders, WithdrawableTxInfo) of a proposal is
+\* covered by stages marked withdrawn: an order that survives the undoing of its
+\* withdrawal, or a second order for the same stages, breaks this
+PendOf(s, p) == {o \in s.pend : o.p = p}
+PayableWithinWithdrawn(s) ==
+    \A p \in Props : SumSet([o \in PendOf(s, p) |-> o.amt], PendOf(s, p)) <= SumSet(s.prop[p].bud, s.prop[p].wdrawn)
 
 \* the committee never commits more than its available funds: what is owed
 \* to live proposals is covered by the bookkeeping, and the bookkeeping is
